@@ -61,6 +61,9 @@ def run(prog, chk):
     chk.rule(_C19.text_not_altered, prog, chk)  # what decides whether an element's content is "only text" (and the shape is then laid out and counted) reads the text as written: a trimmed / filtered copy sends `<rect ..>NEWLINE</rect>` down the container path, where it has no box
     from props import geomalg as _ga
     chk.rule(_ga.check_extent_seeds, prog, chk)  # the extent of a polyline / polygon covers points at negative coordinates
+    from props import C03 as _C03g
+    chk.rule(_C03g.graphics_vocabulary, prog, chk)  # an <image> / shape written with a separate end tag is laid out, and counted in the extent, like its empty-element form
+    chk.rule(path_relative_commands, prog, chk)
 
 
 def _lit(body, t, i):
@@ -663,3 +666,32 @@ def config_is_incremental(prog, chk):
                     o = R.origin(b, d[2]["args"][0], carriers={})
                     ok = o[0] == "field" and o[1][1] and o[1][1][-1] == ".config"
     chk.ob(ok, "A10.config-incremental", "ConfigElement", b.where(bb, t.get("line")), "the configuration handed to set_config is a clone of context.config with the mentioned keys replaced", f"the configuration built by <config> does not start from the configuration in force (it starts from {src}): settings it does not mention - border, scale ... - are reset, so the root extent/size no longer follow the given configuration")
+
+
+
+def path_relative_commands(prog, chk):
+    """path data: a lower-case command takes its coordinates relative to the current point, its upper-case twin takes
+    them as they are (SVG 1.1 8.3.1).  An arm of the dispatch on the command letter that serves both spellings of a
+    letter (`'A' | 'a' =>`) treats them alike - unless the function asks which of the two it has
+    (`is_ascii_lowercase()`, a comparison with the folded letter).  `Z` / `z` are the same command"""
+    b = prog.maybe_body("svgdx::path::PathParser::process_instruction")
+    if b is None:
+        chk.anchor_missing("A15.path-relative", "PathParser::process_instruction not found")
+        return
+    chk.touch(b)
+    sw = [(x, b.term(x)) for x in b.reachable if b.term(x)["k"] == "switch" and b.term(x).get("ty") == "char" and len(b.term(x)["vals"]) >= 4]
+    if not sw:
+        chk.undecided("A15.path-relative", "process_instruction", b.where(), "no dispatch on the command letter found")
+        return
+    asks = bool(b.call_sites(lambda c: c.path.split("::")[-1] in ("is_ascii_lowercase", "is_ascii_uppercase", "is_lowercase", "is_uppercase", "to_ascii_uppercase", "to_ascii_lowercase")))
+    n = 0
+    for x, st in sw:
+        by_t = {}
+        for v, tgt in st["vals"]:
+            by_t.setdefault(tgt, set()).add(v)
+        for tgt, vs in sorted(by_t.items()):
+            both = sorted(chr(v) for v in vs if 0 < v < 128 and chr(v).isalpha() and chr(v).upper() not in ("Z",) and ord(chr(v).swapcase()) in vs and chr(v).isupper())
+            n += 1
+            if both and not asks:
+                chk.bad("A15.path-relative", "process_instruction:" + "".join(both), b.where(tgt), f"one arm serves both `{both[0]}` and `{both[0].lower()}` and nothing in the function asks which spelling it has: the relative form is read as absolute (or the other way round) - the end point of `a 5 5 0 0 1 10 10` is 10,10 instead of current + 10,10, and the box of the path, the anchor of its text with it, is wrong")
+    chk.ok("A15.path-relative", "scan", b.where(), f"{n} arm(s) of the command dispatch examined: none serves both spellings of a letter without asking which")
